@@ -73,6 +73,19 @@ def expand(t):
     if t["t"] == "integrate":
         # IntegrationOperator: weight with the volume element, then sum
         return dict(t="sum", a=dict(t="scale", c=t["vol"], a=t["a"]))
+    if t["t"] == "ptwa":
+        # point-wise functions with ARRAY parameters (Field arguments of `ptw`), expressed with scalar-parameter entries
+        f, P, a = t["f"], t["P"], t["a"]
+        if f == "power":            # a_i ** e_i = exp(e_i * log a_i)
+            return dict(t="ptw", f="exp", p=[], a=dict(t="mulc", d=P[0], a=dict(t="ptw", f="log", p=[], a=a)))
+        if f == "exponentiate":     # b_i ** a_i = exp(log(b_i) * a_i)
+            return dict(t="ptw", f="exp", p=[], a=dict(t="mulc", d=[float(np.log(b)) for b in P[0]], a=a))
+        if f == "clip":             # lo + (hi-lo) * clip((a-lo)/(hi-lo), 0, 1)
+            lo, hi = P
+            w = [h - l for l, h in zip(lo, hi)]
+            inner = dict(t="mulc", d=[1.0 / x for x in w], a=dict(t="addc", c=lo, neg=True, a=a))
+            return dict(t="addc", c=lo, neg=False, a=dict(t="mulc", d=w, a=dict(t="ptw", f="clip", p=[0.0, 1.0], a=inner)))
+        raise ValueError(f)
     if t["t"] != "pinsert":
         return t
     k1, k2 = keys_read(t["f"]), dom(t["g"])
@@ -300,6 +313,8 @@ class Builder:
             return self.build(t["a"]).ducktape_left(t["k"])
         if k == "integrate":
             return self.build(t["a"]).integrate()
+        if k == "ptwa":
+            return self.build(t["a"]).ptw(t["f"], *[self.field(P) for P in t["P"]])
         if k == "bil":
             m, na, nb, T, oshape = bil_info(t)
             sa, sb = [tuple(x) for x in t["shapes"]]
@@ -656,6 +671,24 @@ class Gen:
             ss, shapes = r.choice(pats)
             return dict(t="bil", ss=ss, shapes=shapes, a=self.single(int(np.prod(shapes[0])), env, depth - 2),
                         b=self.single(int(np.prod(shapes[1])), env, depth - 2))
+        if c < 0.66 and r.random() < 0.5:
+            # point-wise entries with array-valued parameters
+            a = self.single(n, env, depth - 1)
+            va = pyeval(a, env)[""]
+            f = r.choice(["power", "exponentiate", "clip"])
+            if f == "power" and np.all(va > 0.2) and np.all(va < 6):
+                t = dict(t="ptwa", f=f, P=[[r.choice([-1.5, -1.0, 0.5, 1.5, 2.0, 3.0]) for _ in range(n)]], a=a)
+            elif f == "exponentiate" and np.all(np.abs(va) < 4):
+                t = dict(t="ptwa", f=f, P=[[r.choice([0.5, 0.75, 1.5, 2.0, 2.5]) for _ in range(n)]], a=a)
+            elif f == "clip" and _ok_all(va):
+                lo = [self.dy(-1.5, 0.5) for _ in range(n)]
+                hi = [l + r.choice([0.5, 1.0, 2.0]) for l in lo]
+                t = dict(t="ptwa", f=f, P=[lo, hi], a=a) if (np.all(np.abs(va - np.array(lo)) > 0.05)
+                                                               and np.all(np.abs(va - np.array(hi)) > 0.05)) else None
+            else:
+                t = None
+            if t is not None and _ok_all(pyeval(t, env)[""]):
+                return t
         if c < 0.66:
             return dict(t="scale", c=r.choice([-2.0, -1.0, -1.0, -0.5, 0.25, 0.5, 1.5, 2.0, 3.0]), a=self.single(n, env, depth - 1))
         if c < 0.72:
@@ -899,6 +932,7 @@ def lin_arith(b, t, base, rng=None):
     `sum`, `__getitem__`, `__truediv__`, `__pow__`, `__neg__`, scalar and field operands) instead of building an
     operator tree; nodes without a Linearization method apply the one-node operator to the Linearization."""
     ift = b.ift
+    t0 = t
     t = expand(t)
     k = t["t"]
     rec = lambda s: lin_arith(b, s, base, rng)
@@ -940,6 +974,11 @@ def lin_arith(b, t, base, rng=None):
         if t["f"] == "exp" and t["a"]["t"] == "mul" and t["a"]["b"]["t"] == "ptw" and t["a"]["b"]["f"] == "log":
             return rec(t["a"]["b"]["a"]) ** rec(t["a"]["a"])        # __pow__ with a Linearization exponent
         return la.ptw(t["f"], *t["p"])
+    if t0["t"] == "ptwa":
+        la = lin_arith(b, t0["a"], base, rng)
+        if t0["f"] == "power" and (rng is None or rng.random() < 0.5):
+            return la ** b.field(t0["P"][0])                          # __pow__ with a Field exponent
+        return la.ptw(t0["f"], *[b.field(P) for P in t0["P"]])
     if k == "bil":
         from nifty.cl.operators.simple_linear_operators import DomainChangerAndReshaper
         m, na, nb, T, oshape = bil_info(t)
